@@ -11,7 +11,7 @@ import random
 from . import common as C, proggen as P, progrun as R, sexp, pyeval
 
 PROP = "C05"
-MODULES = ["RuschmProofs.C05Shapes", "RuschmProofs.C05Meaning", "RuschmProofs.C05Nesting"]
+MODULES = ["RuschmProofs.C05Shapes", "RuschmProofs.C05Meaning", "RuschmProofs.C05Nesting", "RuschmProofs.C05Text"]
 FORMS = ["begin", "let", "let*", "cond", "case", "and", "or", "when", "unless"]
 
 
